@@ -187,13 +187,17 @@ var c15OffHostOf = map[string]string{c15OffDIDA: c15OffHostA, c15OffDIDV: c15Off
 // c15OffNode builds the node side: real TLS authenticator over the real service resolver, real connection manager, real
 // offloading interceptor. onConnected receives the identity the observers (= the protocols) get for an accepted stream.
 func c15OffNode(x *h.Ctx, headerCfg string, crlFail bool, onConnected func(transport.Peer)) (*grpcConnectionManager, grpc.StreamServerInterceptor) {
-	logrus.SetOutput(io.Discard)
 	docs := map[string]*did.Document{}
 	for d, hst := range c15OffHostOf {
 		id := did.MustParseDID(d)
 		docs[d] = &did.Document{ID: id, Service: []did.Service{{Type: transport.NutsCommServiceType, ServiceEndpoint: "grpc://" + hst + ":5555"}}}
 	}
-	authenticator := NewTLSAuthenticator(resolver.DIDServiceResolver{Resolver: c15AuthResolver{docs: docs}})
+	return c15OffNodeAuth(x, headerCfg, crlFail, NewTLSAuthenticator(resolver.DIDServiceResolver{Resolver: c15AuthResolver{docs: docs}}), onConnected)
+}
+
+// c15OffNodeAuth is c15OffNode around a given authenticator instance.
+func c15OffNodeAuth(x *h.Ctx, headerCfg string, crlFail bool, authenticator Authenticator, onConnected func(transport.Peer)) (*grpcConnectionManager, grpc.StreamServerInterceptor) {
+	logrus.SetOutput(io.Discard)
 	cm, err := NewGRPCConnectionManager(Config{peerID: "c15-offload-server"}, nil, did.MustParseDID("did:nuts:c15offserver"), authenticator)
 	x.NoErr(err, "NewGRPCConnectionManager")
 	x.Cleanup(cm.Stop)
@@ -327,22 +331,9 @@ func c15OffJudge(x *h.Ctx, c c15OffCase, ref c15OffRef, seen *transport.Peer, st
 	}
 }
 
-func c15RunOffload(x *h.Ctx, c c15OffCase) {
-	if len(c.Values) > 8 || c.HeaderCfg == "" {
-		return
-	}
-	certs := c15OffCerts(x)
-	connected := make(chan transport.Peer, 4)
-	cm, interceptor := c15OffNode(x, c.HeaderCfg, c.CRLFail, func(p transport.Peer) { connected <- p })
-
-	seq := c15OffSeq.Add(1)
-	md, ref := c15OffMetadata(x, c.HeaderCfg, c, certs, fmt.Sprintf("c15-offload-peer-%d", seq))
-	claimed, single := ref.claimed, ref.single
-
-	grpcPeer := &peer.Peer{Addr: &net.TCPAddr{IP: net.ParseIP("203.0.113.7"), Port: 20000 + int(seq%20000)}}
-	if c.PresetTLS != "" {
-		grpcPeer.AuthInfo = credentials.TLSInfo{State: tls.ConnectionState{PeerCertificates: []*x509.Certificate{certs[c.PresetTLS]}}}
-	}
+// c15OffRunStream plays one inbound stream (incoming metadata md, transport peer grpcPeer) through the interceptor and
+// handleInboundStream. It returns the identity the observers got (nil: refused); an accepted stream is closed again.
+func c15OffRunStream(x *h.Ctx, cm *grpcConnectionManager, interceptor grpc.StreamServerInterceptor, md metadata.MD, grpcPeer *peer.Peer, connected chan transport.Peer) (*transport.Peer, error) {
 	ctx, cancel := context.WithCancel(context.Background())
 	defer cancel()
 	ctx = metadata.NewIncomingContext(ctx, md)
@@ -375,6 +366,26 @@ func c15RunOffload(x *h.Ctx, c c15OffCase) {
 	case <-time.After(20 * time.Second):
 		x.Fatalf("inbound stream neither accepted nor refused")
 	}
+	return seen, streamErr
+}
+
+func c15RunOffload(x *h.Ctx, c c15OffCase) {
+	if len(c.Values) > 8 || c.HeaderCfg == "" {
+		return
+	}
+	certs := c15OffCerts(x)
+	connected := make(chan transport.Peer, 4)
+	cm, interceptor := c15OffNode(x, c.HeaderCfg, c.CRLFail, func(p transport.Peer) { connected <- p })
+
+	seq := c15OffSeq.Add(1)
+	md, ref := c15OffMetadata(x, c.HeaderCfg, c, certs, fmt.Sprintf("c15-offload-peer-%d", seq))
+	claimed, single := ref.claimed, ref.single
+
+	grpcPeer := &peer.Peer{Addr: &net.TCPAddr{IP: net.ParseIP("203.0.113.7"), Port: 20000 + int(seq%20000)}}
+	if c.PresetTLS != "" {
+		grpcPeer.AuthInfo = credentials.TLSInfo{State: tls.ConnectionState{PeerCertificates: []*x509.Certificate{certs[c.PresetTLS]}}}
+	}
+	seen, streamErr := c15OffRunStream(x, cm, interceptor, md, grpcPeer, connected)
 
 	// classes
 	covers := func(crt *x509.Certificate, hst string) bool { return c15OffCovers(x, crt, hst) }
